@@ -52,12 +52,23 @@ _RATERS = {}
 
 
 def standalone_rater(reg, ts, names, lda):
+    """a rater constructed by the harness: documented hyper-parameters of
+    the named regressor as they are in a fresh interpreter, training set
+    loaded from its directory"""
     from nanite.rate import rater as rmod
+    from .. import state
     key = json.dumps([reg, ts, names, lda])
     if key not in _RATERS:
-        _RATERS[key] = rmod.get_rater(regressor=reg,
-                                      training_set=ts_arg(ts),
-                                      names=names, lda=lda)
+        reg_cl, kw = state.pristine("nanite.rate.regressors",
+                                    "reg_dict")[reg]
+        tsp = ts_arg(ts)
+        if tsp in rmod.get_available_training_sets():
+            tsp = rmod.IndentationRater.get_training_set_path(label=tsp)
+        X, y = rmod.IndentationRater.load_training_set(path=tsp,
+                                                       names=names)
+        _RATERS[key] = rmod.IndentationRater(
+            regressor=reg_cl(**kw), training_set=(X, y), names=names,
+            lda=lda)
     return _RATERS[key]
 
 
@@ -161,11 +172,15 @@ RATE_OPS = [
 ]
 
 
+G_OP = ["G", "Extra Trees", "user", {"n_estimators": 3, "max_depth": 2,
+                                     "random_state": 7}]
+
+
 class Driver(hist.Driver):
     prop = PROP
     name = "long"
     n_app = 700
-    ops = STATE_OPS + RATE_OPS
+    ops = STATE_OPS + RATE_OPS + [G_OP]
 
     def fresh(self):
         ensure_user_ts()
@@ -178,6 +193,19 @@ class Driver(hist.Driver):
         return idnt
 
     def apply(self, idnt, op):
+        if op[0] == "G":
+            # somebody else builds a rater with hyper-parameters of his own
+            from nanite.rate import rater as rmod
+            exc = None
+            try:
+                rmod.get_rater(op[1], training_set=ts_arg(op[2]), **op[3])
+            except BaseException as e:
+                if isinstance(e, (KeyboardInterrupt, SystemExit,
+                                  MemoryError)):
+                    raise
+                exc = ops.short_exc(e)
+            return {"ok": exc is None, "exc": exc, "minimize": 0,
+                    "trainings": 0, "ret": None}
         if op[0] == "R":
             op = ["R", op[1], ts_arg(op[2]), op[3], op[4]]
         return ops.apply_op(idnt, op)
@@ -211,6 +239,25 @@ class Short(Driver):
     n_app = 300
 
 
+class LongFitted(Driver):
+    """starts from a preprocessed and fitted long curve; raters with other
+    hyper-parameters are built in between the ratings"""
+    name = "long_fitted"
+    ops = [G_OP,
+           ["G", "Decision Tree", "zef18", {"max_depth": 1}],
+           ["F", {"weight_cp": 0}],
+           rating_op("Extra Trees", "user"),
+           rating_op("Extra Trees"),
+           rating_op("Decision Tree"),
+           rating_op("Decision Tree", "user", NAMES_B, True)]
+
+    def fresh(self):
+        idnt = super().fresh()
+        idnt.apply_preprocessing(list(P1))
+        idnt.fit_model(model_key="hertz_para")
+        return idnt
+
+
 class ShortReject(Short):
     """a short curve (size criterion fails once it is preprocessed), valid
     and rejected preprocessing requests, fits and ratings - deeper"""
@@ -220,7 +267,8 @@ class ShortReject(Short):
            ["P", ["correct_tip_offset"], {}, False],
            ["F", {}],
            rating_op("Decision Tree"),
-           rating_op("Extra Trees", "user")]
+           rating_op("Extra Trees", "user"),
+           G_OP]
 
 
 class Recorded(Driver):
@@ -239,7 +287,8 @@ class Recorded(Driver):
             "/repo/tests/data/fmt-jpk-fd_spot3-0192.jpk-force")[0]
 
 
-DRIVERS = {d.name: d() for d in (Driver, Short, ShortReject, Recorded)}
+DRIVERS = {d.name: d() for d in (Driver, Short, ShortReject, LongFitted,
+                                 Recorded)}
 
 # representative curve states for the full sweep: (driver, history of ops)
 SWEEP_STATES = [
@@ -340,8 +389,10 @@ def run(tier):
             [sys.executable, "-m", "mc.props.c09", "--table"], env=env,
             cwd=VERIF_ROOT, stdout=subprocess.PIPE, stderr=subprocess.PIPE,
             text=True))
-    plan = {"quick": [("long", 3), ("short", 2), ("short_reject", 4)],
+    plan = {"quick": [("long", 3), ("short", 2), ("short_reject", 4),
+                      ("long_fitted", 3)],
             "thorough": [("long", 4), ("short", 3), ("short_reject", 6),
+                         ("long_fitted", 5),
                          ("recorded", 3)]}[tier]
     ratings = set()
     for name, depth in plan:
